@@ -18,14 +18,7 @@ func scenC01(k *K) {
 	refc := []int{1, 2, 64}[k.C.Intn(3)]
 	c := k.NewCluster(ClusterCfg{N: n, Type: typ, PeerOpts: append(transportOpt(k), WithKnobs(Knobs{Concurrency: conc, RefCount: refc}))})
 	k.F = swarmFaults(k, true)
-	if k.C.Chance(1, 2) {
-		// block fetches fail now and then: ancestors arrive later, in batches of their own,
-		// below the heads a replica already has
-		k.F.FailFetch = k.C.Range(1, 3)
-	}
-	// gap-fill mode: the first remote fetch of some entries fails, so they reach that replica
-	// later than their descendants, in a batch of their own below the heads it already has
-	gapFill := k.C.Chance(1, 3)
+	c.FetchFailures()
 	nops := k.C.Range(4, 14)
 	if Tier == "thorough" {
 		nops = k.C.Range(4, 40)
@@ -61,11 +54,7 @@ func scenC01(k *K) {
 		case 0:
 			node := k.C.Intn(nw)
 			if c.Stores[node] != nil {
-				if wr := c.RandomWrite(node); wr != nil && gapFill && k.C.Chance(1, 2) {
-					k.W.mu.Lock()
-					k.W.FailWant[wr.Hash] = k.C.Range(1, 3)
-					k.W.mu.Unlock()
-				}
+				c.RandomWrite(node)
 			}
 		case 1:
 			src, dst := k.C.Intn(n), k.C.Intn(n)
